@@ -340,6 +340,83 @@ Proof.
   apply (terms_read_lattice_of m ts (fun t => x_term_matrix t s u)).
 Qed.
 
+(** ** adding terms to ANY lattice adds their operators to its Hamiltonian.
+       [storage_bounded]: nothing is stored above MaxTermOrder (an invariant of Lattice::TermStorage: addTerm raises
+       MaxTermOrder to the order of every term it stores; it holds for the empty storage and is kept by [push_all]). *)
+Definition storage_bounded (st : Lattice.state L K) : Prop :=
+  forall n, maxorder st < n -> getTerms L K st n = [].
+
+Lemma storage_bounded_init : forall m, storage_bounded (mkState m [] 0).
+Proof. intros m n _. reflexivity. Qed.
+
+Lemma maxorder_push_all_ge : forall ts (st : Lattice.state L K), maxorder st <= maxorder (push_all L K ts st).
+Proof. intros ts st. rewrite maxorder_push_all'. apply fold_max_ge. Qed.
+
+Lemma storage_bounded_push_all : forall ts st, storage_bounded st -> storage_bounded (push_all L K ts st).
+Proof.
+  intros ts st H n Hn. rewrite getTerms_push_all'.
+  pose proof (maxorder_push_all_ge ts st) as Hge.
+  rewrite H by lia. cbn [app].
+  destruct (filter (fun t => t_order t =? n) ts) as [|t r] eqn:E; [reflexivity|].
+  assert (Hin : In t (filter (fun t => t_order t =? n) ts)) by (rewrite E; left; reflexivity).
+  apply filter_In in Hin. destruct Hin as [Hin Ho]. apply Nat.eqb_eq in Ho.
+  rewrite maxorder_push_all' in Hn.
+  pose proof (fold_max_in (map t_order ts) (maxorder st) (t_order t) (in_map _ _ _ Hin)). lia.
+Qed.
+
+Lemma storage_ok_push_all : forall ts st, storage_ok st -> Forall (fun t => term_ok (t_order t) t) ts ->
+  storage_ok (push_all L K ts st).
+Proof.
+  intros ts st Hst Hts n Hn. rewrite getTerms_push_all'. apply Forall_app. split; [apply Hst; exact Hn|].
+  apply Forall_forall. intros t Ht. apply filter_In in Ht. destruct Ht as [Hin E]. apply Nat.eqb_eq in E. subst n.
+  rewrite Forall_forall in Hts. apply Hts. exact Hin.
+Qed.
+
+Lemma ksum_orders_down_above : forall n' n (f : nat -> K), n <= n' -> (forall k, n < k -> f k = k0) ->
+  ksum (orders_down n') f = ksum (orders_down n) f.
+Proof.
+  induction n' as [|p IH]; intros n f Hle Hz.
+  - replace n with 0 by lia. reflexivity.
+  - destruct (Nat.eq_dec n (S p)) as [->|Hne]; [reflexivity|].
+    cbn [orders_down]. rewrite ksum_cons'. rewrite (Hz (S p)) by lia. rewrite (IH n f) by (try lia; exact Hz). ring.
+Qed.
+
+Lemma terms_read_push_all : forall ts st (G : term -> K), storage_bounded st ->
+  ksum (terms_read (push_all L K ts st)) (fun nt => G (snd nt)) =
+  kadd (ksum (terms_read st) (fun nt => G (snd nt))) (ksum ts (fun t => if 1 <=? t_order t then G t else k0)).
+Proof.
+  intros ts st G Hb. unfold IndexHam.terms_read.
+  rewrite !(ksum_flat_map K k0 k1 kadd kmul ksub kopp kzero Hring).
+  set (mx' := maxorder (push_all L K ts st)).
+  transitivity (ksum (orders_down mx') (fun n => kadd (ksum (getTerms L K st n) G)
+                                                     (ksum ts (fun t => if t_order t =? n then G t else k0)))).
+  { apply ks_ext. intros n _. rewrite (AlgebraBasics.ksum_map K k0 kadd). cbn [snd].
+    rewrite getTerms_push_all', ks_app. f_equal. apply (ksum_filter K k0 k1 kadd kmul ksub kopp kzero Hring). }
+  rewrite (AlgebraBasics.ksum_add K k0 k1 kadd kmul ksub kopp kzero Hring). f_equal.
+  - rewrite (ksum_orders_down_above mx' (maxorder st)).
+    + apply ks_ext. intros n _. rewrite (AlgebraBasics.ksum_map K k0 kadd). reflexivity.
+    + apply maxorder_push_all_ge.
+    + intros k Hk. rewrite (Hb k Hk). reflexivity.
+  - rewrite ks_swap. apply ks_ext. intros t Ht. rewrite ksum_orders_down.
+    assert (Hle : t_order t <= mx').
+    { unfold mx'. rewrite maxorder_push_all'. apply fold_max_in. apply in_map. exact Ht. }
+    replace (t_order t <=? mx') with true by (symmetry; apply Nat.leb_le; exact Hle).
+    rewrite andb_true_r. reflexivity.
+Qed.
+
+Theorem prepare_after_push : forall st ts, storage_ok st -> storage_bounded st ->
+  Forall (fun t => term_ok (t_order t) t) ts ->
+  exists h h', prepare true st = Done h /\ prepare true (push_all L K ts st) = Done h' /\
+    forall s u, length s = M -> length u = M ->
+      cp h' s u = kadd (cp h s u) (ksum ts (fun t => if 1 <=? t_order t then x_term_matrix t s u else k0)).
+Proof.
+  intros st ts Hok Hb Hts.
+  destruct (prepare_sound_x st Hok) as (h & E & _ & S).
+  destruct (prepare_sound_x (push_all L K ts st) (storage_ok_push_all ts st Hok Hts)) as (h' & E' & _ & S').
+  exists h, h'. split; [exact E|]. split; [exact E'|]. intros s u Hs Hu.
+  rewrite S', S by assumption. apply (terms_read_push_all ts st (fun t => x_term_matrix t s u) Hb).
+Qed.
+
 (** ** an arbitrary user term (2, 4, 6, ... operators): its contribution is Value * the product of the
        Jordan-Wigner matrices of its operators, in the order written *)
 Theorem raw_term_sound : forall m (t : term), 1 <= t_order t -> term_ok (t_order t) t ->
